@@ -10,6 +10,7 @@
   really differs from the relational reading (known finding C02-F1, `c02_empty_domain_witness`).
 -/
 import EqlModel.Lemmas.Disjoint
+import EqlModel.NatWorld
 
 namespace Eql
 variable {V : Type}
@@ -197,5 +198,23 @@ theorem c02_rows_nodup [Inhabited V] (q : Query V) (hf : q.noFlat = true)
     rcases (cond_supp W D c hf.2 [] p.1 p.2 false hp).1 w hw with h | h
     · simp [bound, List.lookup] at h
     · exact hall w (by simpa [Query.condVars] using h)
+
+/-- **The excluded point is real** (known finding C02-F1): `x` over [1, 2, 3], `z` over the empty
+    domain, `an(entity(x, or_(x > 1, z > 1)))`.  The model (like the implementation) returns 2 and
+    3, although no admissible assignment of (x, z) exists at all. -/
+theorem c02_empty_domain_witness :
+    let D : VarId → List Nat := fun v => if v = 0 then [1, 2, 3] else []
+    let q : Query Nat := ⟨[.var 0], some (.elseIf (.cmp .gt (.var 0) (.lit 1)) (.cmp .gt (.var 1) (.lit 1)))⟩
+    rows natWorld D q = [[2], [3]] ∧ ¬ ∃ α, q.Adm D α := by
+  refine ⟨by decide, ?_⟩
+  rintro ⟨α, h⟩
+  have := h 1 (by simp [Query.condVars, Cond.vars, Term.vars])
+  simp at this
+
+/-- Non-vacuity: a two-variable join whose hypotheses hold and whose answer is not trivial. -/
+example :
+    let D : VarId → List Nat := fun v => if v = 0 then [1, 2, 3] else [2, 3, 4]
+    rows natWorld D ⟨[.var 0, .var 1], some (.and (.cmp .lt (.var 0) (.var 1)) (.cmp .ne (.var 1) (.lit 4)))⟩
+      = [[1, 2], [1, 3], [2, 3]] := by decide
 
 end Eql
